@@ -382,7 +382,9 @@ def _o_c16(x) -> bool:
     env2, _ = A.env_with_recorder()
     stubs.H3_SHIM.calls = 0
     sim3 = step_vehicle(x.sim, env2, x.v)
-    return ok and I.deq(I.snap_sim(x.sim2, True), I.snap_sim(sim3, True))
+    with boot.no_tracing():
+        env_same = A.env_fingerprint() == A.ENV_FP0  # shared model tables of the environment untouched
+    return ok and env_same and I.deq(I.snap_sim(x.sim2, True), I.snap_sim(sim3, True))
 
 
 def _decide(x) -> bool:
